@@ -15,7 +15,13 @@ EXTENDS BtNum
 Tol6 == Rat(1, 1000000)
 Floor9 == Rat(1, 100000)
 NearV(a, b) ==   \* "ok" / "fail" / "skip"
-  IF IsOvf(b) \/ IsInx(b) \/ IsOvf(a) \/ IsInx(a) THEN "skip"
+  IF IsInx(a) /\ ~Bad(b) THEN
+     \* a reported value off the decoding lattice is known to 1e-4: undecidable when
+     \* that close to the exact value, a failure when grossly off
+     LET e4 == RMul(b, R(10000))
+     IN  IF Bad(e4) THEN "skip"
+         ELSE IF Abs(RFloor(e4) - a[1]) <= 2 + Abs(a[1]) \div 2000 THEN "skip" ELSE "fail"
+  ELSE IF IsOvf(b) \/ IsInx(b) \/ IsOvf(a) \/ IsInx(a) THEN "skip"
   ELSE IF IsNaN(a) /\ IsNaN(b) THEN "ok"
   ELSE IF IsNaN(a) \/ IsNaN(b) THEN "fail"
   ELSE IF Bad(a) \/ Bad(b) THEN "skip"
@@ -44,6 +50,28 @@ Position(tr, d, k) == SumTicker(tr, tr.H.pos, d, k)
 HHI(tr, d) ==
   LET ks == SelectSeq([i \in 1..tr.NT |-> i], LAMBDA k : k \in Tickers(tr))
   IN  RSumSeq([i \in 1..Len(ks) |-> LET w == SecWeight(tr, d, ks[i]) IN IF IsNaN(w) THEN Zero ELSE RMul(w, w)])   \* (OVF / INX propagate)
+\* the index in units of 1e-4 from weights rounded to 1e-4 (-1: not computable): what
+\* is left to compare when the exact sum of squares leaves 32-bit rationals or the
+\* reported value is off the decoding lattice
+HHI4(tr, d) ==
+  LET ks == SelectSeq([i \in 1..tr.NT |-> i], LAMBDA k : k \in Tickers(tr))
+      w4(k) == LET w == SecWeight(tr, d, k)
+               IN  IF IsNaN(w) THEN 0 ELSE IF Bad(w) \/ ~MulOK(w[1], 10000) THEN 100000 ELSE RFloor(RMul(w, R(10000)))
+      RECURSIVE Sum(_)
+      Sum(i) == IF i > Len(ks) THEN 0
+                ELSE LET x == w4(ks[i]) r == Sum(i + 1)
+                     IN  IF r < 0 \/ Abs(x) > 30000 THEN -1 ELSE r + (x * x) \div 10000
+  IN  Sum(1)
+ChkHHI(tr, d) ==
+  LET obs == tr.R.hhi[d]
+      v   == NearV(obs, HHI(tr, d))
+      h4  == HHI4(tr, d)
+      o4  == IF IsInx(obs) THEN obs[1]
+             ELSE IF Bad(obs) \/ ~MulOK(obs[1], 10000) THEN -1 ELSE RFloor(RMul(obs, R(10000)))
+  IN  IF v # "skip" THEN v
+      ELSE IF h4 < 0 \/ o4 < 0 THEN "skip"
+      ELSE IF Abs(o4 - h4) <= 8 + h4 \div 400 THEN "skip" ELSE "fail"   \* grossly off
+
 Turnover(tr, d) ==
   LET ks  == SelectSeq([i \in 1..tr.NT |-> i], LAMBDA k : k \in Tickers(tr))
       o(k) == SumTicker(tr, tr.H.outlay, d, k)
@@ -65,7 +93,7 @@ Judge(tr) ==
         UNION {chk("C18.weights", d, n, NearV(tr.R.weights[d][n], CompWeight(tr, d, n))) : n \in Nodes(tr)}
         \cup UNION {chk("C18.security_weights", d, k, NearV(tr.R.sweights[d][k], SecWeight(tr, d, k))) : k \in Tickers(tr)}
         \cup UNION {chk("C18.positions", d, k, NearV(tr.R.positions[d][k], Position(tr, d, k))) : k \in Tickers(tr)}
-        \cup chk("C18.herfindahl", d, 0, NearV(tr.R.hhi[d], HHI(tr, d)))
+        \cup chk("C18.herfindahl", d, 0, ChkHHI(tr, d))
         \* (on a tree that never created a security the turnover report is NaN and
         \* the transaction report raises: known finding F4, reported by the harness)
         \cup (IF tr.NT = 0 THEN {} ELSE chk("C18.turnover", d, 0, NearV(tr.R.turnover[d], Turnover(tr, d))))
